@@ -48,7 +48,7 @@ def _outcome(api, text, ast_for_setup, assignment, what, style="hardcoded", hint
 
 def check_transform(case):
     api = evalhelp.api()
-    units = []
+    units, outcomes = [], []
     for assignment in case["assignments"]:
         style, texts = case.get("style", "hardcoded"), case.get("hint_texts")
         base = _outcome(api, case["s"], case["ast"], assignment, "original", style, texts)
@@ -57,6 +57,26 @@ def check_transform(case):
             fail("outcome-changed", f"{case['kind']} at {case['site']}: {case['s']!r} -> {base} but "
                  f"{case['t_s']!r} -> {changed} under {assignment}")  # fmt: skip
         units.append(([case["s"], case["t_s"], assignment], len(case["site"]) > 0))
+        outcomes.append(base)
+    # the same two Tree objects evaluated under one assignment after the other (the tree entry point of the same
+    # function): what an earlier assignment left behind must not show in a later outcome (seed C05-o)
+    trees = []
+    for text in (case["s"], case["t_s"]):
+        parsed = sut.call(api.parse_cond, text)
+        if not parsed.ok:
+            fail("tree-raises", f"parse_condition_expression_to_tree({text!r}) raised {parsed!r}")
+        trees.append(parsed.value)
+    for assignment, expected in zip(case["assignments"], outcomes):
+        for text, tree in zip((case["s"], case["t_s"]), trees):
+            evalhelp.setup_for(case["ast"] if text is case["s"] else case["t_ast"], assignment,
+                               style=case.get("style", "hardcoded"), hint_texts=case.get("hint_texts"))  # fmt: skip
+            res = sut.call(api.requirement_constraint_evaluation, tree)
+            if not res.ok:
+                fail("tree-raises", f"the tree of {text!r}, evaluated again under {assignment}, raised {res!r}")
+            if evalhelp.outcome_of(res.value) != expected:
+                fail("tree-outcome-changed", f"{case['kind']} at {case['site']}: the tree of {text!r}, evaluated for the "
+                     f"assignments {case['assignments']} one after the other, gives {evalhelp.outcome_of(res.value)} under "
+                     f"{assignment}; the string gives {expected}")  # fmt: skip
     return {"_units": units}
 
 
